@@ -94,6 +94,7 @@ class Inputs:
         self.cp = (np.array([1.0, 2.0]), [A, B, C])
         # argument forms / shape regimes
         self.y_n1 = r.randn(12, 1)
+        self.X1, self.y1 = r.randn(1, 3, 4), r.randn(1)
         self.Xmat = r.randn(12, 5)
         self.Xother, self.yother = r.randn(9, 3, 4), r.randn(9)            # "other data" an estimator saw before
         self.T2 = r.randn(5, 4)                                             # order 2
@@ -141,7 +142,8 @@ def inputs():
 # different result" (it is a C15 violation too; the `inp` field of the events says whether the arguments changed).
 _ARGS = {}
 _ALT = [False]      # the "alt" entry class of a trace: the SAME routine on a twin of the SAME arguments --
-                    # False (the arguments themselves) | "float32" | "complex128" (per trace: case["altkind"])
+                    # False (the arguments themselves) | "float32" | "complex128" | "special" (per trace: case["altkind"]);
+                    # "broken" is used for the failed call that may precede a history
 
 
 def new_trace_arguments():
@@ -155,6 +157,15 @@ def _version(a, alt):
             return x.astype(np.float32)
         if alt == "complex128" and x.dtype.kind == "f":       # a genuinely complex tensor of the same shape
             return x.astype(np.complex128) + 0.5j * np.roll(x, 1, axis=0)
+        if alt == "special" and x.dtype.kind == "f" and x.size >= 4:   # negative zeros and subnormals among ordinary values
+            y = x.copy()
+            flat = y.reshape(-1)
+            flat[0], flat[1], flat[-1] = -0.0, 5e-324, -5e-324
+            return y
+        if alt == "broken" and x.dtype.kind == "f":           # data on which the routine fails (or goes NaN) half-way
+            y = x.copy()
+            y.reshape(-1)[::2] = np.nan
+            return y
         return x.copy()
     return [one(x) for x in a] if isinstance(a, list) else one(a)
 
@@ -429,6 +440,99 @@ def _entries():
     add("random_cp", "size-1 mode,rank>dim", lambda rs: tr.random_cp((3, 1, 2), 3, random_state=rs), det_cpt, slow=True)
     add("random_tucker", "order=2", lambda rs: tr.random_tucker((3, 4), [2, 2], random_state=rs), det_modedot, slow=True)
     add("random_tt", "order=4", lambda rs: tr.random_tt((3, 2, 3, 2), [1, 2, 2, 2, 1], random_state=rs), det_tt, slow=True)
+    # ---- CALL FORM: everything up to and including the seed handed over POSITIONALLY in the published (frozen) order
+    from .lib_seeded_frozen import positional as pos
+    P_ = lambda name, fn, **kw: (lambda rs: pos(name, fn, rs, **{k: (v() if callable(v) else v) for k, v in kw.items()}))
+    T_, Pn_, S_, M_ = (lambda: c(I.T)), (lambda: c(I.P)), (lambda: c(I.slices)), (lambda: c(I.M))
+    add("random_tensor", "positional", P_("random_tensor", tr.random_tensor, shape=(3, 4, 2)), det_unfold, slow=True)
+    add("random_cp", "positional", P_("random_cp", tr.random_cp, shape=(3, 4, 2), rank=2), det_cpt, slow=True)
+    add("random_tucker", "positional", P_("random_tucker", tr.random_tucker, shape=(3, 4, 2), rank=[2, 2, 2]), det_modedot, slow=True)
+    add("random_tt", "positional", P_("random_tt", tr.random_tt, shape=(3, 4, 2), rank=[1, 2, 2, 1]), det_tt, slow=True)
+    add("random_tt_matrix", "positional", P_("random_tt_matrix", tr.random_tt_matrix, shape=(2, 2, 3, 3), rank=[1, 2, 1]), det_ttm, slow=True)
+    add("random_tr", "positional", P_("random_tr", tr.random_tr, shape=(3, 4, 2), rank=[2, 2, 2, 2]), det_tr, slow=True)
+    add("random_parafac2", "positional", P_("random_parafac2", tr.random_parafac2, shapes=[(3, 4), (4, 4), (3, 4)], rank=2), det_kr, slow=True)
+    add("parafac", "positional,init=random", P_("parafac", D.parafac, tensor=T_, rank=2, n_iter_max=3, init="random", tol=0), det_parafac, slow=True)
+    add("non_negative_parafac", "positional,init=random", P_("non_negative_parafac", D.non_negative_parafac, tensor=Pn_, rank=2, n_iter_max=3, init="random", tol=0), det_nnparafac, slow=True)
+    add("non_negative_parafac_hals", "positional,init=random", P_("non_negative_parafac_hals", D.non_negative_parafac_hals, tensor=Pn_, rank=2, n_iter_max=1, init="random", tol=0), det_nnhals, slow=True)
+    add("constrained_parafac", "positional,init=random", P_("constrained_parafac", D.constrained_parafac, tensor=T_, rank=2, n_iter_max=2, n_iter_max_inner=2, init="random", non_negative=True), det_ccp, slow=True)
+    add("randomised_parafac", "positional,init=random", P_("randomised_parafac", D.randomised_parafac, tensor=T_, rank=2, n_samples=8, n_iter_max=3, init="random", tol=0), det_parafac, slow=True)
+    add("sample_khatri_rao", "positional", P_("sample_khatri_rao", D.sample_khatri_rao, matrices=lambda: c(I.mats), n_samples=6), det_kr, slow=True)
+    add("tucker", "positional,init=random", P_("tucker", D.tucker, tensor=T_, rank=[2, 2, 2], n_iter_max=3, init="random", tol=0), det_tucker, slow=True)
+    add("partial_tucker", "positional,init=random", P_("partial_tucker", D.partial_tucker, tensor=T_, rank=[2, 2], modes=[0, 2], n_iter_max=3, init="random", tol=0), det_ptucker, slow=True)
+    add("non_negative_tucker", "positional,init=random", P_("non_negative_tucker", D.non_negative_tucker, tensor=Pn_, rank=[2, 2, 2], n_iter_max=3, init="random", tol=0), det_nntucker, slow=True)
+    add("non_negative_tucker_hals", "positional,init=random", P_("non_negative_tucker_hals", D.non_negative_tucker_hals, tensor=Pn_, rank=[2, 2, 2], n_iter_max=1, init="random", tol=0), det_nntuckerh, slow=True)
+    add("parafac2", "positional,init=random", P_("parafac2", D.parafac2, tensor_slices=S_, rank=2, n_iter_max=3, init="random", tol=0, linesearch=False), det_parafac2, slow=True)
+    add("tensor_ring_als", "positional", P_("tensor_ring_als", D.tensor_ring_als, tensor=T_, rank=[2, 2, 2, 2], n_iter_max=3, tol=0), det_tr, slow=True)
+    add("tensor_ring_als_sampled", "positional", P_("tensor_ring_als_sampled", D.tensor_ring_als_sampled, tensor=T_, rank=[2, 2, 2, 2], n_samples=10, n_iter_max=3, tol=0), det_tr, slow=True)
+    add("tensor_train_cross", "positional", P_("tensor_train_cross", tensor_train_cross, input_tensor=Pn_, rank=[1, 2, 2, 1], n_iter_max=4), det_tt, slow=True)
+    add("randomized_svd", "positional", P_("randomized_svd", randomized_svd, matrix=M_, n_eigenvecs=3), det_tsvd, slow=True)
+    add("randomized_range_finder", "positional", P_("randomized_range_finder", randomized_range_finder, A=M_, n_dims=3), det_tsvd, slow=True)
+    ft = lambda arg: (lambda m: m.fit_transform(arg()))
+    addc("CP.fit_transform", "positional,init=random", P_("CP", D.CP, rank=2, n_iter_max=3, init="random", tol=0), ft(T_), det_parafac, slow=True)
+    addc("RandomizedCP.fit_transform", "positional", P_("RandomizedCP", D.RandomizedCP, rank=2, n_samples=8, n_iter_max=3, tol=0, verbose=0), ft(T_), det_parafac, slow=True)
+    addc("CP_NN.fit_transform", "positional,init=random", P_("CP_NN", D.CP_NN, rank=2, n_iter_max=3, init="random", tol=0), ft(Pn_), det_nnparafac, slow=True)
+    addc("CP_NN_HALS.fit_transform", "positional,init=random", P_("CP_NN_HALS", D.CP_NN_HALS, rank=2, n_iter_max=1, init="random", tol=0), ft(Pn_), det_nnhals, slow=True)
+    addc("ConstrainedCP.fit_transform", "positional,init=random", P_("ConstrainedCP", D.ConstrainedCP, rank=2, n_iter_max=2, n_iter_max_inner=2, init="random", l2_reg=0.1), ft(T_), det_ccp, slow=True)
+    addc("Tucker.fit_transform", "positional,init=random", P_("Tucker", D.Tucker, rank=[2, 2, 2], n_iter_max=3, init="random", tol=0), ft(T_), det_tucker, slow=True)
+    addc("Tucker_NN.fit_transform", "positional,init=random", P_("Tucker_NN", Tucker_NN, rank=[2, 2, 2], n_iter_max=3, init="random", tol=0), ft(Pn_), det_nntucker, slow=True)
+    addc("Tucker_NN_HALS.fit_transform", "positional,init=random", P_("Tucker_NN_HALS", Tucker_NN_HALS, rank=[2, 2, 2], n_iter_max=1, init="random", tol=0), ft(Pn_), det_nntuckerh, slow=True)
+    addc("Parafac2.fit_transform", "positional,init=random", P_("Parafac2", D.Parafac2, rank=2, n_iter_max=3, init="random", tol=0, linesearch=False, return_errors=True), ft(S_), det_parafac2, slow=True)
+    addc("TensorRingALS.fit_transform", "positional", P_("TensorRingALS", D.TensorRingALS, rank=[2, 2, 2, 2], n_iter_max=3, tol=0), ft(T_), det_tr, slow=True)
+    addc("TensorRingALSSampled.fit_transform", "positional", P_("TensorRingALSSampled", D.TensorRingALSSampled, rank=[2, 2, 2, 2], n_samples=10, n_iter_max=3, tol=0), ft(T_), det_tr, slow=True)
+    addc("CPRegressor", "positional", P_("CPRegressor", CPRegressor, weight_rank=2, tol=0, n_iter_max=4), reg_fit("X", "y", ["weight_tensor_"]), det_parafac, clone=by_params, slow=True)
+    addc("TuckerRegressor", "positional", P_("TuckerRegressor", TuckerRegressor, weight_ranks=[2, 2], tol=0, n_iter_max=4), reg_fit("X", "y", ["weight_tensor_"]), det_tucker, clone=by_params, slow=True)
+    addc("CP_PLSR", "positional", P_("CP_PLSR", CP_PLSR, n_components=2, n_iter_max=5), plsr_ft("X", "y"), det_svdi, clone=by_params, slow=True)
+
+    # ---- (7) a second public entry point on the same helper: DecompositionMixin.fit (then .decomposition_) next to fit_transform
+    fitattr = lambda arg: (lambda m: [m.fit(arg()).decomposition_])
+    addc("CP.fit", "init=random", lambda rs: D.CP(2, n_iter_max=3, init="random", tol=0, random_state=rs), fitattr(T_), det_parafac, slow=True)
+    addc("Tucker.fit", "init=random", lambda rs: D.Tucker([2, 2, 2], n_iter_max=3, init="random", tol=0, random_state=rs), fitattr(T_), det_tucker, slow=True)
+    addc("TensorRingALS.fit", "", lambda rs: D.TensorRingALS([2, 2, 2, 2], n_iter_max=3, tol=0, random_state=rs), fitattr(T_), det_tr, slow=True)
+    addc("CP_NN_HALS.fit", "init=random", lambda rs: D.CP_NN_HALS(2, n_iter_max=1, init="random", tol=0, random_state=rs), fitattr(Pn_), det_nnhals, slow=True)
+    addc("RandomizedCP.fit", "", lambda rs: D.RandomizedCP(2, 8, n_iter_max=3, tol=0, verbose=0, random_state=rs), fitattr(T_), det_parafac, slow=True)
+
+    # ---- (4) rank / size relations: rank 1, rank equal to a mode size, a single column / sample / component
+    add("parafac", "init=random,rank=1", lambda rs: D.parafac(c(I.T), 1, n_iter_max=3, init="random", tol=0, random_state=rs), det_parafac, slow=True)
+    add("parafac", "init=random,rank=mode size(3)", lambda rs: D.parafac(c(I.T), 3, n_iter_max=3, init="random", tol=0, random_state=rs), det_parafac, slow=True)
+    add("parafac", "init=svd,svd=randomized_svd,rank=mode size(3)", lambda rs: D.parafac(c(I.T), 3, n_iter_max=3, init="svd", svd="randomized_svd", tol=0, random_state=rs), det_parafac, slow=True)
+    add("tucker", "init=random,rank=1", lambda rs: D.tucker(c(I.T), [1, 1, 1], n_iter_max=3, init="random", tol=0, random_state=rs), det_tucker, slow=True)
+    add("tucker", "init=svd,svd=randomized_svd,rank=mode sizes", lambda rs: D.tucker(c(I.T), [4, 3, 5], n_iter_max=2, init="svd", svd="randomized_svd", tol=0, random_state=rs), det_tucker, slow=True)
+    add("non_negative_parafac", "init=random,rank=1", lambda rs: D.non_negative_parafac(c(I.P), 1, n_iter_max=3, init="random", tol=0, random_state=rs), det_nnparafac, slow=True)
+    add("tensor_ring_als", "rank=1", lambda rs: D.tensor_ring_als(c(I.T), [1, 1, 1, 1], n_iter_max=3, tol=0, random_state=rs), det_tr, slow=True)
+    add("random_cp", "rank=1,orthogonal", lambda rs: tr.random_cp((3, 4, 2), 1, orthogonal=True, random_state=rs), det_cpt, slow=True)
+    add("randomized_svd", "n_eigenvecs=1", lambda rs: randomized_svd(c(I.M), n_eigenvecs=1, random_state=rs), det_tsvd, slow=True)
+    add("randomized_svd", "n_eigenvecs=min dim", lambda rs: randomized_svd(c(I.M), n_eigenvecs=6, random_state=rs), det_tsvd, slow=True)
+    add("sample_khatri_rao", "n_samples=1", lambda rs: D.sample_khatri_rao(c(I.mats), 1, random_state=rs), det_kr, slow=True)
+    add("parafac2", "init=random,rank=1", lambda rs: D.parafac2(c(I.slices), 1, n_iter_max=3, init="random", tol=0, linesearch=False, random_state=rs), det_parafac2, slow=True)
+    addc("CPRegressor", "weight_rank=1", lambda rs: CPRegressor(1, tol=0, n_iter_max=4, random_state=rs), reg_fit("X", "y", ["weight_tensor_"]), det_parafac, clone=by_params, slow=True)
+    addc("CPRegressor", "single sample", lambda rs: CPRegressor(2, tol=0, n_iter_max=3, random_state=rs), reg_fit("X1", "y1", ["weight_tensor_"]), det_parafac, clone=by_params, slow=True)
+    addc("TuckerRegressor", "weight_ranks=1", lambda rs: TuckerRegressor([1, 1], tol=0, n_iter_max=4, random_state=rs), reg_fit("X", "y", ["weight_tensor_"]), det_tucker, clone=by_params, slow=True)
+    addc("CP_PLSR", "n_components=1", lambda rs: CP_PLSR(1, n_iter_max=5, random_state=rs), plsr_all("X", "y"), det_svdi, clone=by_params, slow=True)
+
+    # ---- (6) return flags / callbacks together
+    def with_cb(f):
+        def run(rs):
+            log = []
+            out = f(rs, lambda *a: log.append([x for x in a if isinstance(x, (float, np.floating, np.ndarray))]))
+            return [out, log]
+        return run
+    add("parafac", "init=random,return_errors+callback", with_cb(lambda rs, cb: D.parafac(c(I.T), 2, n_iter_max=3, init="random", tol=1e-30, return_errors=True, callback=cb, random_state=rs)), det_parafac, slow=True)
+    add("randomised_parafac", "return_errors+callback", with_cb(lambda rs, cb: D.randomised_parafac(c(I.T), 2, 8, n_iter_max=3, init="random", tol=1e-30, return_errors=True, callback=cb, random_state=rs)), det_parafac, slow=True)
+    add("tensor_ring_als", "callback", with_cb(lambda rs, cb: D.tensor_ring_als(c(I.T), [2, 2, 2, 2], n_iter_max=3, tol=0, callback=cb, random_state=rs)), det_tr, slow=True)
+    add("tensor_ring_als_sampled", "callback,randomized_error", with_cb(lambda rs, cb: D.tensor_ring_als_sampled(c(I.T), [2, 2, 2, 2], 10, n_iter_max=3, tol=0, randomized_error=True, callback=cb, random_state=rs)), det_tr, slow=True)
+    add("non_negative_parafac_hals", "init=random,return_errors", lambda rs: D.non_negative_parafac_hals(c(I.P), 2, n_iter_max=1, init="random", tol=1e-30, return_errors=True, random_state=rs), det_nnhals, slow=True)
+    add("constrained_parafac", "init=random,return_errors", lambda rs: D.constrained_parafac(c(I.T), 2, n_iter_max=2, n_iter_max_inner=2, init="random", l2_reg=0.1, return_errors=True, random_state=rs), det_ccp, slow=True)
+    add("non_negative_tucker", "init=random,return_errors,normalize_factors", lambda rs: D.non_negative_tucker(c(I.P), [2, 2, 2], n_iter_max=3, init="random", tol=0, return_errors=True, normalize_factors=True, random_state=rs), det_nntucker, slow=True)
+    add("sample_khatri_rao", "indices_list given(no draw)", lambda rs: D.sample_khatri_rao(c(I.mats), 3, indices_list=[np.array([0, 1, 2]), np.array([2, 1, 0]), np.array([4, 0, 1])], return_sampled_rows=True, random_state=rs), det_kr, slow=True)
+
+    # ---- (2) aliasing: the same array object in two argument slots
+    def same_twice():
+        A = c(I.mats)[0]
+        return [A, A]
+    add("sample_khatri_rao", "the same matrix twice", lambda rs: D.sample_khatri_rao(same_twice(), 5, random_state=rs), lambda: tenalg.khatri_rao(same_twice()), slow=True)
+    add("parafac2", "init=random,the same slice three times", lambda rs: D.parafac2([c(I.slices)[0]] * 3, 2, n_iter_max=3, init="random", tol=0, linesearch=False, random_state=rs), det_parafac2, slow=True)
+    addc("CP_PLSR", "Y is X (matrix)", lambda rs: CP_PLSR(2, n_iter_max=5, random_state=rs), lambda m: (lambda X: [m.fit_transform(X, X), m.predict(X)])(c(I.Xmat)), det_svdi, clone=by_params, slow=True)
+
     # ---- routines WITHOUT random choices under test themselves: tensor algebra and the functions on factorised tensors,
     # in their option forms, on containers (lists / tuples of arrays) the caller keeps and hands over again.  They have
     # no random_state: only the unseeded call exists (the seed-accepting companion of these registry lines is a trivial draw).
@@ -448,6 +552,10 @@ def _entries():
     addd("khatri_rao", "weights,mask(tensor-shaped)", lambda: ta.khatri_rao(c(I.mats), weights=c(I.w2), mask=c(I.mask)))
     addd("khatri_rao", "weights,mask(column)", lambda: ta.khatri_rao(c(I.mats), weights=c(I.w2), mask=c(I.krmask)))
     addd("khatri_rao", "skip_matrix", lambda: ta.khatri_rao(c(I.mats), skip_matrix=0))
+    addd("khatri_rao", "the same matrix twice,weights", lambda: ta.khatri_rao(same_twice(), weights=c(I.w2)))
+    addd("multi_mode_dot", "the same matrix for two modes", lambda: ta.multi_mode_dot(c(I.T4), [c(I.mats)[1].T[:, :3]] * 2, modes=[0, 2]))
+    addd("inner", "a tensor with itself", lambda: ta.inner(c(I.T), c(I.T)))
+    addd("outer", "the same vector twice", lambda: ta.outer([c(I.mvecs)[0]] * 2))
     addd("kronecker", "", lambda: ta.kronecker(c(I.kmats)))
     addd("kronecker", "skip_matrix,reverse", lambda: ta.kronecker(c(I.mats), skip_matrix=1, reverse=True))
     addd("mode_dot", "matrix", lambda: ta.mode_dot(c(I.T), c(I.mmats)[1], 1))
@@ -585,6 +693,27 @@ def _run_trace(case, ent, _ta):
     # control path: what the estimator object went through BEFORE the history starts must not matter -- a fit on other
     # data, or a fit that failed (state surviving between calls)
     pre = case.get("prefit", "none")
+    if pre == "failing":
+        # the caller caught an exception from an earlier call of the routine (data that makes it fail half-way, after it
+        # may have drawn numbers) -- with the integer seed and with both twin generators alike -- and carries on
+        import os
+        sys_fds = [os.dup(1), os.dup(2)]
+        null = os.open(os.devnull, os.O_WRONLY)
+        os.dup2(null, 1), os.dup2(null, 2)          # LAPACK reports the NaNs on the process' stdout/stderr
+        try:
+            for rs in [real[1]] + [gens[g] for g in sorted(gens)]:
+                _ALT[0] = "broken"
+                try:
+                    ent["rand"](rs)
+                except Exception:
+                    pass
+                finally:
+                    _ALT[0] = False
+        finally:
+            os.dup2(sys_fds[0], 1), os.dup2(sys_fds[1], 2)
+            for fd in sys_fds + [null]:
+                os.close(fd)
+        np.random.seed(int(case["start"]))
     if pre != "none" and "obj" in ent and pre in ent["obj"]:
         for o in objs:
             try:
